@@ -6,7 +6,6 @@ import (
 	"fmt"
 	"go/token"
 	"go/types"
-	"os"
 	"path/filepath"
 	"regexp"
 	"sort"
@@ -44,7 +43,7 @@ func parseTxProtos(repo string) (map[string]*msgInfo, map[string][]string, error
 	reRPC := regexp.MustCompile(`^\s*rpc\s+(\w+)\s*\(\s*(\w+)\s*\)`)
 	for _, f := range files {
 		mod := filepath.Base(filepath.Dir(f))
-		b, err := os.ReadFile(f)
+		b, err := readRepoFile(f)
 		if err != nil {
 			return nil, nil, err
 		}
